@@ -1,20 +1,23 @@
 (* Corr/C14.v — case type and predicates evaluated by the correspondence check of C14.
    A case = prior history (initial definition and revision), the commands, the schedule (interleaving of their
-   GET / PATCH steps), and what the gated fake backend and the commands reported when the real CLI ran it. *)
+   requests, with the scripted backend faults), and what the gated fake backend and the commands reported when the
+   real CLI ran it. *)
 From Verif Require Import Base.Bytes Model.Occ Model.OccSrc.
 
 Inductive wtag := WNone | WRev (n : N) | WBad.
 
+(* the backend's log.  RGet: who, definition and revision returned, was it the /decrypt rendering.
+   RPatch: who, tag sent, committed?, scripted fault, definition/revision before, text sent, definition/revision after *)
 Inductive req :=
-| RGet (i : nat) (def : tree) (rev : N)
-| RPatch (i : nat) (t : wtag) (ok : bool) (before : tree) (brev : N) (body : tree) (after : tree) (arev : N).
+| RGet (i : nat) (def : tree) (rev : N) (dec : bool)
+| RPatch (i : nat) (t : wtag) (ok : bool) (f : fault) (before : tree) (brev : N) (body : tree) (after : tree) (arev : N).
 
 Inductive status := SOk | SConflict | SErr | SPanic | SOther.
 
 Record case := mkCase {
   c_init : tree; c_irev : N;
   c_ops : list op;
-  c_sched : list nat;
+  c_sched : list (nat * fault);
   (* implementation *)
   c_reqs : list req;
   c_out : list status;
@@ -44,12 +47,18 @@ Definition wtag_eqb (a b : wtag) : bool :=
   | _, _ => false
   end.
 
+Definition fault_eqb (a b : fault) : bool :=
+  match a, b with
+  | FNone, FNone | FLost, FLost | FReject, FReject => true
+  | _, _ => false
+  end.
+
 Definition req_eqb (a b : req) : bool :=
   match a, b with
-  | RGet i d r, RGet j e s => Nat.eqb i j && tree_eqb d e && (r =? s)
-  | RPatch i t ok b br bd a ar, RPatch j t' ok' b' br' bd' a' ar' =>
-      Nat.eqb i j && wtag_eqb t t' && Bool.eqb ok ok' && tree_eqb b b' && (br =? br') && tree_eqb bd bd'
-      && tree_eqb a a' && (ar =? ar')
+  | RGet i d r dc, RGet j e s dc' => Nat.eqb i j && tree_eqb d e && (r =? s) && Bool.eqb dc dc'
+  | RPatch i t ok f b br bd a ar, RPatch j t' ok' f' b' br' bd' a' ar' =>
+      Nat.eqb i j && wtag_eqb t t' && Bool.eqb ok ok' && fault_eqb f f' && tree_eqb b b' && (br =? br')
+      && tree_eqb bd bd' && tree_eqb a a' && (ar =? ar')
   | _, _ => false
   end.
 
@@ -72,18 +81,20 @@ Definition model_cmds (c : case) : list (command tree) := map cli_command (c_ops
 Definition model_run (c : case) : state tree :=
   run (model_cmds c) (c_sched c) (init_state (model_cmds c) (mkStore (c_init c) (c_irev c))).
 
-Definition req_of_event (e : event tree) : req :=
+Definition req_of_event (ops : list op) (e : event tree) : req :=
   match e with
-  | EvGet i s => RGet i (s_def s) (s_rev s)
-  | EvPatch i t ok b body a =>
-      RPatch i (match t with None => WNone | Some r => WRev r end) ok (s_def b) (s_rev b) body (s_def a) (s_rev a)
+  | EvGet i s => RGet i (s_def s) (s_rev s) (match nth_error ops i with Some o => shows_secrets o | None => false end)
+  | EvPatch i t ok f b body a =>
+      RPatch i (match t with None => WNone | Some r => WRev r end) ok f (s_def b) (s_rev b) body (s_def a) (s_rev a)
   end.
 
+(* env set / env rm / env edit --file print the diagnostics of a refused update and return nil; the interactive edit
+   says "Aborting edit." at the end of its input and returns nil: exit status 0 (see the known class below) *)
 Definition status_of_phase (p : phase tree) : status :=
   match p with
-  | PDone OOk | PDone ONoWrite => SOk
+  | PDone OOk | PDone ONoWrite | PDone ORejected => SOk
   | PDone OConflict => SConflict
-  | PDone OErr => SErr
+  | PDone OErr | PDone OLost => SErr
   | PDone OPanic => SPanic
   | _ => SOther
   end.
@@ -91,101 +102,177 @@ Definition status_of_phase (p : phase tree) : status :=
 Definition mismatch (c : case) : bool :=
   let fin := model_run c in
   negb (c_clean c
-        && list_eqb req_eqb (c_reqs c) (map req_of_event (st_trace fin))
+        && list_eqb req_eqb (c_reqs c) (map (req_of_event (c_ops c)) (st_trace fin))
         && list_eqb status_eqb (c_out c) (map status_of_phase (st_ph fin))
         && tree_eqb (c_final c) (s_def (st_store fin))
         && (c_frev c =? s_rev (st_store fin))).
 
-(* ---- the specification, evaluated on what the implementation did (no use of [run]) ---- *)
+(* ---- the specification, evaluated on what the implementation did (no use of [run]): the backend's log, the exit
+   statuses, the final definition; the commands and the prior history are the input of the case ---- *)
 Definition is_rmw (o : op) : bool := match o with OpFile _ => false | _ => true end.
+Definition is_interactive (o : op) : bool := match o with OpEdit _ _ _ _ => true | _ => false end.
 
-Fixpoint get_of (i : nat) (rs : list req) : option (tree * N) :=
-  match rs with
-  | [] => None
-  | RGet j d r :: rest => if Nat.eqb i j then Some (d, r) else get_of i rest
-  | _ :: rest => get_of i rest
+(* the requests of one command, in the order the backend served them *)
+Definition by_cmd (i : nat) (r : req) : bool :=
+  match r with RGet j _ _ _ => Nat.eqb i j | RPatch j _ _ _ _ _ _ _ _ => Nat.eqb i j end.
+
+(* in a list of EARLIER requests: the definition and revision command [i] last READ - the last GET of [i] that
+   fetched the rendering its editor shows (`--show-secrets`: /decrypt) *)
+Fixpoint last_read (i : nat) (dec : bool) (seen : list req) (acc : option (tree * N)) : option (tree * N) :=
+  match seen with
+  | [] => acc
+  | RGet j d r dc :: rest => last_read i dec rest (if Nat.eqb i j && Bool.eqb dc dec then Some (d, r) else acc)
+  | _ :: rest => last_read i dec rest acc
   end.
 
-Definition patch_by (i : nat) (want_ok : bool) (r : req) : bool :=
-  match r with RPatch j _ ok _ _ _ _ _ => Nat.eqb i j && Bool.eqb ok want_ok | _ => false end.
+(* how many saves of [i] were refused with diagnostics so far = the round of its next save *)
+Definition round_of (i : nat) (seen : list req) : nat :=
+  length (filter (fun r => match r with RPatch j _ _ FReject _ _ _ _ _ => Nat.eqb i j | _ => false end) seen).
 
-(* one request respects the property *)
-Definition req_ok (ops : list op) (rs : list req) (r : req) : bool :=
+(* one request respects the property, given the requests served before it *)
+Definition req_ok (ops : list op) (seen : list req) (r : req) : bool :=
   match r with
-  | RGet _ _ _ => true
-  | RPatch i t ok before brev body after arev =>
+  | RGet i _ _ _ => match nth_error ops i with Some _ => true | None => false end
+  | RPatch i t ok f before brev body after arev =>
       match nth_error ops i with
       | None => false
       | Some o =>
-          (* the update of a read-modify-write command carries the tag its own GET returned *)
-          (if is_rmw o then match get_of i rs with Some (_, g) => wtag_eqb t (WRev g) | None => false end
-           else true)
+          let read := last_read i (shows_secrets o) seen None in
+          (* the update of a read-modify-write command is conditional on the revision it read *)
+          (if is_rmw o then match read with Some (_, g) => wtag_eqb t (WRev g) | None => false end else true)
           &&
           (if ok then
-             (* applied, and to the definition current at that moment *)
-             match edit_of o before with
-             | EUpd b' => tree_eqb b' body && tree_eqb after body && (arev =? brev + 1)
-             | _ => false
-             end
+             (* committed: not a refused one; against the definition the command last read; the text is the command's
+                edit of the definition current at that moment; the revision advances by one *)
+             negb (fault_eqb f FReject)
+             && (if is_rmw o then match read with Some (d, g) => (g =? brev) && tree_eqb d before | None => false end
+                 else true)
+             && match edit_of o (round_of i seen) before with
+                | EUpd b' => tree_eqb b' body && tree_eqb after body && (arev =? brev + 1)
+                | _ => false
+                end
            else
-             (* rejected: nothing changed *)
+             (* not committed: nothing changed *)
              tree_eqb after before && (arev =? brev))
       end
   end.
 
-(* the exit status of command [i] agrees with what happened to its update *)
-Definition status_ok (ops : list op) (rs : list req) (i : nat) (s : status) : bool :=
-  let applied := existsb (patch_by i true) rs in
-  let rejected := existsb (patch_by i false) rs in
-  match s with
-  | SOk =>
-      applied
-      || (negb rejected
-          && match nth_error ops i, get_of i rs with
-             | Some o, Some (d, _) => is_rmw o && match edit_of o d with ENoWrite => true | _ => false end
-             | _, _ => false
-             end)
-  | SConflict => rejected && negb applied
-  | SErr | SPanic => negb applied
-  | SOther => false
+Fixpoint reqs_ok (ops : list op) (seen rest : list req) : bool :=
+  match rest with
+  | [] => true
+  | r :: rest' => req_ok ops seen r && reqs_ok ops (seen ++ [r]) rest'
   end.
 
-Fixpoint statuses_ok (ops : list op) (rs : list req) (i : nat) (out : list status) : bool :=
+(* the log is one history: each request starts where the previous one ended *)
+Fixpoint continuous (d : tree) (rev : N) (rs : list req) : bool :=
+  match rs with
+  | [] => true
+  | RGet _ g r _ :: rest => tree_eqb g d && (r =? rev) && continuous d rev rest
+  | RPatch _ _ _ _ b br _ a ar :: rest => tree_eqb b d && (br =? rev) && continuous a ar rest
+  end.
+
+Definition committed_by (i : nat) (r : req) : bool :=
+  match r with RPatch j _ true _ _ _ _ _ _ => Nat.eqb i j | _ => false end.
+Definition told_conflict (i : nat) (r : req) : bool :=
+  match r with RPatch j _ false FNone _ _ _ _ _ => Nat.eqb i j | _ => false end.
+Definition confirmed_commit_by (i : nat) (r : req) : bool :=
+  match r with RPatch j _ true f _ _ _ _ _ => Nat.eqb i j && negb (fault_eqb f FLost) | _ => false end.
+
+Fixpoint last_patch (i : nat) (rs : list req) (acc : option req) : option req :=
+  match rs with
+  | [] => acc
+  | (RPatch j _ _ _ _ _ _ _ _ as r) :: rest => last_patch i rest (if Nat.eqb i j then Some r else acc)
+  | _ :: rest => last_patch i rest acc
+  end.
+
+(* the exit status of command [i] agrees with what happened to its updates.
+   [tolerate]: accept exit status 0 after an update refused with diagnostics (known class, see below) *)
+Definition status_ok (tolerate : bool) (ops : list op) (rs : list req) (i : nat) (s : status) : bool :=
+  let applied := existsb (committed_by i) rs in
+  match nth_error ops i with
+  | None => false
+  | Some o =>
+      match s with
+      | SOk =>
+          match last_patch i rs None with
+          | Some (RPatch _ _ true FNone _ _ _ _ _) =>
+              (* its last update was committed and it saw the confirmation *)
+              true
+          | Some (RPatch _ _ false FReject _ _ _ _ _) =>
+              (* its last update was refused with diagnostics and it committed nothing: the interactive edit ends
+                 with "Aborting edit." when the person has no ENTER left; for the other commands exit status 0 is the
+                 known class *)
+              negb applied
+              && ((is_interactive o && Nat.ltb (enters_of o) (round_of i rs)) || tolerate)
+          | Some _ => false
+          | None =>
+              (* no update at all: the edit of what it read had nothing to write *)
+              is_rmw o
+              && match last_read i (shows_secrets o) rs None with
+                 | Some (d, _) => match edit_of o 0 d with ENoWrite => true | _ => false end
+                 | None => false
+                 end
+          end
+      | SConflict => existsb (told_conflict i) rs && negb applied      (* a conflict changed nothing *)
+      | SErr => negb (existsb (confirmed_commit_by i) rs)    (* nothing committed, or the reply to the commit was lost *)
+      | SPanic => negb applied
+      | SOther => false
+      end
+  end.
+
+Fixpoint statuses_ok (tolerate : bool) (ops : list op) (rs : list req) (i : nat) (out : list status) : bool :=
   match out with
   | [] => true
-  | s :: rest => status_ok ops rs i s && statuses_ok ops rs (S i) rest
+  | s :: rest => status_ok tolerate ops rs i s && statuses_ok tolerate ops rs (S i) rest
   end.
 
-(* the commands whose update was applied, in write order *)
-Fixpoint applied_log (rs : list req) : list nat :=
-  match rs with
+(* the commands whose update was committed, with the round of that update, in commit order *)
+Fixpoint applied_log (seen rest : list req) : list (nat * nat) :=
+  match rest with
   | [] => []
-  | RPatch i _ true _ _ _ _ _ :: rest => i :: applied_log rest
-  | _ :: rest => applied_log rest
+  | (RPatch i _ true _ _ _ _ _ _ as r) :: rest' => (i, round_of i seen) :: applied_log (seen ++ [r]) rest'
+  | r :: rest' => applied_log (seen ++ [r]) rest'
   end.
 
-Definition apply_op (ops : list op) (d : tree) (i : nat) : tree :=
-  match nth_error ops i with
-  | Some o => match edit_of o d with EUpd d' => d' | _ => d end
+Definition apply_op (ops : list op) (d : tree) (x : nat * nat) : tree :=
+  match nth_error ops (fst x) with
+  | Some o => match edit_of o (snd x) d with EUpd d' => d' | _ => d end
   | None => d
   end.
 
-Definition spec_fail (c : case) : bool :=
-  negb (forallb (req_ok (c_ops c) (c_reqs c)) (c_reqs c)
-        && (Nat.eqb (length (c_out c)) (length (c_ops c)))
-        && statuses_ok (c_ops c) (c_reqs c) 0 (c_out c)
-        (* the final definition is the fold of the edits of exactly the applied commands, in write order *)
-        && tree_eqb (c_final c) (fold_left (apply_op (c_ops c)) (applied_log (c_reqs c)) (c_init c))
-        && (c_frev c =? c_irev c + N.of_nat (length (applied_log (c_reqs c))))).
+Fixpoint nodupb (l : list nat) : bool :=
+  match l with
+  | [] => true
+  | x :: r => negb (existsb (Nat.eqb x) r) && nodupb r
+  end.
 
-Definition known (c : case) : bool := false.
+Definition spec_ok (tolerate : bool) (c : case) : bool :=
+  let log := applied_log [] (c_reqs c) in
+  reqs_ok (c_ops c) [] (c_reqs c)
+  && continuous (c_init c) (c_irev c) (c_reqs c)
+  && (Nat.eqb (length (c_out c)) (length (c_ops c)))
+  && statuses_ok tolerate (c_ops c) (c_reqs c) 0 (c_out c)
+  (* no command commits twice *)
+  && nodupb (map fst log)
+  (* the final definition is the fold of the edits of exactly the committed updates, in commit order: it contains the
+     effect of every command that reported success (a successful command is in the log by [status_ok]) *)
+  && tree_eqb (c_final c) (fold_left (apply_op (c_ops c)) log (c_init c))
+  && (c_frev c =? c_irev c + N.of_nat (length log)).
+
+Definition spec_fail (c : case) : bool := negb (spec_ok false c).
+
+(* known finding C14-diag-exit0: `env set`, `env rm <path>` and `env edit --file` exit with status 0 when the service
+   refused their update with diagnostics (they print the diagnostics and return nil): a command that "reported
+   success" whose change is not in the definition.  A failing case is inside the class iff it passes the whole
+   specification once exactly that is tolerated. *)
+Definition known (c : case) : bool := spec_ok true c.
 
 Definition spec_fail_new (c : case) : bool := spec_fail c && negb (known c).
 Definition spec_fail_known (c : case) : bool := spec_fail c && known c.
 
 (* at least two updates reached the backend *)
 Definition nontrivial (c : case) : bool :=
-  Nat.leb 2 (length (filter (fun r => match r with RPatch _ _ _ _ _ _ _ _ => true | _ => false end) (c_reqs c))).
+  Nat.leb 2 (length (filter (fun r => match r with RPatch _ _ _ _ _ _ _ _ _ => true | _ => false end) (c_reqs c))).
 
 (* ---- wire format ---- *)
 From Verif Require Import Base.Wire.
@@ -215,8 +302,11 @@ Definition decode_op (x : sexp) : option op :=
   | SList [Atom "set"; p; v] =>
       match slist_of atom_str p, decode_tree v with Some p, Some v => Some (OpSet p v) | _, _ => None end
   | SList [Atom "rm"; p] => match slist_of atom_str p with Some p => Some (OpRm p) | None => None end
-  | SList [Atom "edit"; k; v] =>
-      match atom_str k, atom_str v with Some k, Some v => Some (OpEdit k v) | _, _ => None end
+  | SList [Atom "edit"; k; v; sec; n] =>
+      match atom_str k, atom_str v, atom_bool sec, atom_nat n with
+      | Some k, Some v, Some sec, Some n => Some (OpEdit k v sec n)
+      | _, _, _, _ => None
+      end
   | SList [Atom "abort"] => Some OpAbort
   | SList [Atom "file"; d] => match decode_tree d with Some d => Some (OpFile d) | None => None end
   | _ => None
@@ -229,19 +319,34 @@ Definition decode_wtag (x : sexp) : option wtag :=
   | _ => match atom_N x with Some n => Some (WRev n) | None => None end
   end.
 
+(* lost = answered 5xx after processing; drop = connection closed after processing: the same to the client *)
+Definition decode_fault (x : sexp) : option fault :=
+  match x with
+  | Atom "none" => Some FNone
+  | Atom "lost" | Atom "drop" => Some FLost
+  | Atom "reject" => Some FReject
+  | _ => None
+  end.
+
+Definition decode_slot (x : sexp) : option (nat * fault) :=
+  match x with
+  | SList [i; f] => match atom_nat i, decode_fault f with Some i, Some f => Some (i, f) | _, _ => None end
+  | _ => None
+  end.
+
 Definition decode_req (x : sexp) : option req :=
   match x with
-  | SList [Atom "get"; i; d; r] =>
-      match atom_nat i, decode_tree d, atom_N r with
-      | Some i, Some d, Some r => Some (RGet i d r) | _, _, _ => None end
-  | SList [Atom "patch"; i; t; ok; b; br; bd; a; ar] =>
-      match atom_nat i, decode_wtag t, atom_bool ok, decode_tree b with
-      | Some i, Some t, Some ok, Some b =>
+  | SList [Atom "get"; i; d; r; dc] =>
+      match atom_nat i, decode_tree d, atom_N r, atom_bool dc with
+      | Some i, Some d, Some r, Some dc => Some (RGet i d r dc) | _, _, _, _ => None end
+  | SList [Atom "patch"; i; t; ok; f; b; br; bd; a; ar] =>
+      match atom_nat i, decode_wtag t, atom_bool ok, decode_fault f, decode_tree b with
+      | Some i, Some t, Some ok, Some f, Some b =>
           match atom_N br, decode_tree bd, decode_tree a, atom_N ar with
-          | Some br, Some bd, Some a, Some ar => Some (RPatch i t ok b br bd a ar)
+          | Some br, Some bd, Some a, Some ar => Some (RPatch i t ok f b br bd a ar)
           | _, _, _, _ => None
           end
-      | _, _, _, _ => None
+      | _, _, _, _, _ => None
       end
   | _ => None
   end.
@@ -259,7 +364,7 @@ Definition decode_status (x : sexp) : option status :=
 Definition decode (x : sexp) : option case :=
   match x with
   | SList [Atom "c14"; init; irev; ops; sched; reqs; out; final; frev; clean] =>
-      match decode_tree init, atom_N irev, slist_of decode_op ops, slist_of atom_nat sched with
+      match decode_tree init, atom_N irev, slist_of decode_op ops, slist_of decode_slot sched with
       | Some init, Some irev, Some ops, Some sched =>
           match slist_of decode_req reqs, slist_of decode_status out, decode_tree final with
           | Some reqs, Some out, Some final =>
